@@ -175,7 +175,8 @@ class Engine:
         return self._fresh[key]
 
     # ------------------------------------------------------------------
-    def replay(self, history, clear_every=20, mem_tiny=False, freeze=True, onshell=False, importance=None, readonly=False, loader="freeze"):
+    def replay(self, history, clear_every=20, mem_tiny=False, freeze=True, onshell=False, importance=None, readonly=False, loader="freeze",
+               coherence=True):
         """Returns dict(events=[...], findings=[(pid, signature, what, replaydata)], info)."""
         findings = []
         setting = {"history": list(history), "clear_every": clear_every, "mem_tiny": mem_tiny, "freeze": freeze,
@@ -263,6 +264,30 @@ class Engine:
                 # fresh instance is asked for the same construction.  Equivalence of the constructions is decided
                 # on exact solutions (on-shell family).
                 prov_req = provenance(evs, prov, set(self.inputs))
+                # ---- C01 (cache coherence): every entry a nested computation of this request left in the cache is what a fresh
+                # instance returns for that key - otherwise a later request that hits it returns a history-dependent value
+                # (e.g. an entry computed while an option was temporarily changed)
+                if not onshell and coherence:
+                    for k in dict.fromkeys(e["key"] for e in evs if e["ev"] == "exit" and e.get("stored") and e["depth"] >= 1):
+                        if k in self.inputs or not dict.__contains__(rel.data, k):
+                            continue
+                        wk, mixed_k = {}, False
+                        for g, o in prov.get(k, frozenset()):
+                            if g in wk and wk[g] != o:
+                                mixed_k = True
+                            wk[g] = o
+                        if mixed_k:
+                            continue
+                        refk = self.fresh(k, tuple(sorted(wk.items())))
+                        if refk[0] != "ok":
+                            continue
+                        rk = max_diff(dict.__getitem__(rel.data, k), refk[1])
+                        if rk is None or not (rk[0] <= max(REL_TOL * rk[1], ABS_TOL)):
+                            findings.append(("C01", {"clause": "CachedEqualsFresh", "key": k},
+                                             f"the entry {k!r} left in the cache while rel[{req!r}] was computed (history {history[:pos]}, "
+                                             f"clear_cache_every_nbr_calc={clear_every}, mem_tiny={mem_tiny}) differs from what a fresh instance "
+                                             f"returns for {k!r}: max abs diff {None if rk is None else rk[0]} on scale {None if rk is None else rk[1]}",
+                                             dict(setting, pos=pos, cached=k)))
                 pre = ()
                 mixed = False
                 if not onshell and req not in ("!freeze", "!load"):
